@@ -44,6 +44,62 @@ pub enum Spec {
     Remb { bitrate: u64, ssrcs: usize, fill: u8 },
     /// kind 0..=3: structured feedback (see `twcc_payload`); kind 10+n: opaque payload of n bytes
     Twcc { kind: u8, fill: u8 },
+    // ---- thorough-tier deep blocks
+    /// SR / RR with an explicit fraction-lost octet in every block
+    SrX { blocks: usize, lost: i32, fraction: u8, fill: u8 },
+    RrX { blocks: usize, lost: i32, fraction: u8, fill: u8 },
+    /// SDES whose chunks all carry this item list (type, text)
+    SdesX { chunks: usize, items: Vec<(u8, Text)> },
+    /// FIR whose entries carry command sequence numbers seq, seq+1, ...
+    FirX { entries: usize, seq: u8, fill: u8 },
+    /// TWCC with explicit header fields and an opaque payload of `plen` bytes
+    TwccX { base: u16, count: u16, ref_time: u32, fb: u8, plen: usize },
+}
+
+/// One structural mutation of a canonical RTCP image (deep block `rtcp_wire_mutation`).
+#[derive(Clone, Debug, Serialize, Deserialize, PartialEq)]
+pub enum Mutn {
+    /// add to the 16-bit length field (32-bit words) of the chosen packet
+    Len(i8),
+    /// drop this many bytes off the end of the whole image
+    Cut(u8),
+    /// append this many bytes of this value to the whole image
+    Add(u8, u8),
+    /// add to the 5-bit count / format field of the chosen packet
+    Count(i8),
+    /// flip the padding bit of the chosen packet
+    PadBit,
+    /// set the version bits of the chosen packet
+    Ver(u8),
+    /// overwrite the packet type octet of the chosen packet
+    Pt(u8),
+}
+
+fn len_bucket(n: usize) -> &'static str {
+    match n {
+        0 => "0",
+        1..=254 => "1..254",
+        255 => "255",
+        _ => ">255",
+    }
+}
+
+fn lost_bucket(l: i32) -> &'static str {
+    if l < LOST_MIN {
+        "<min"
+    } else if l == LOST_MIN {
+        "min"
+    } else if l < 0 {
+        "neg"
+    } else if l == 0 {
+        "0"
+    } else if l < LOST_MAX {
+        "pos"
+    } else if l == LOST_MAX {
+        "max"
+    } else {
+        ">max"
+    }
 }
 
 const LOST_MIN: i32 = -(1 << 23);
@@ -85,12 +141,24 @@ impl Spec {
             Spec::Fir { .. } => "fir",
             Spec::Nack { .. } => "nack",
             Spec::Remb { .. } => "remb",
-            Spec::Twcc { .. } => "twcc",
+            Spec::Twcc { .. } | Spec::TwccX { .. } => "twcc",
+            Spec::SrX { .. } => "sr",
+            Spec::RrX { .. } => "rr",
+            Spec::SdesX { .. } => "sdes",
+            Spec::FirX { .. } => "fir",
         }
     }
     /// Opaque TWCC payloads are not valid chunk/delta structures; the reference is not consulted.
     pub fn ref_comparable(&self) -> bool {
-        !matches!(self, Spec::Twcc { kind, .. } if *kind >= 10)
+        match self {
+            Spec::Twcc { kind, .. } => *kind < 10,
+            // an opaque payload is not a chunk/delta structure, and a status count without chunks
+            // is malformed to the reference
+            Spec::TwccX { count, plen, .. } => *count == 0 && *plen == 0,
+            // the reference knows SDES item types 1..=8 only
+            Spec::SdesX { items, .. } => items.iter().all(|(ty, _)| (1..=8).contains(ty)),
+            _ => true,
+        }
     }
     /// The over-limit feature of the input (first by priority), or "in-range".
     pub fn feature(&self) -> &'static str {
@@ -102,6 +170,11 @@ impl Spec {
             Spec::Bye { reason: Some(t), .. } if t.len > 255 => "reason_len>255",
             Spec::Remb { ssrcs, .. } if *ssrcs > 255 => "ssrcs>255",
             Spec::Twcc { kind, .. } if twcc_payload(*kind).1.len() % 4 != 0 => "payload_len%4!=0",
+            Spec::SrX { blocks, .. } | Spec::RrX { blocks, .. } if *blocks > 31 => "count>31",
+            Spec::SdesX { chunks, .. } if *chunks > 31 => "count>31",
+            Spec::SdesX { chunks, items } if *chunks > 0 && items.iter().any(|(_, t)| t.len > 255) => "text_len>255",
+            Spec::SdesX { chunks, items } if *chunks > 0 && items.iter().any(|(ty, _)| *ty == 0) => "item_type=0",
+            Spec::TwccX { plen, .. } if plen % 4 != 0 => "payload_len%4!=0",
             _ => "in-range",
         }
     }
@@ -116,7 +189,30 @@ impl Spec {
             Spec::Nack { lost, fill } => format!("nack:n={},f={fill}", lost.len()),
             Spec::Remb { bitrate, ssrcs, fill } => format!("remb:br={bitrate},n={ssrcs},f={fill}"),
             Spec::Twcc { kind, fill } => format!("twcc:k={kind},f={fill}"),
+            // deep blocks: coarse buckets
+            Spec::SrX { blocks, lost, fraction, fill } => format!("srx:b={blocks},lost={},fr={},f={fill}", lost_bucket(*lost), match fraction { 0 => "0", 255 => "255", _ => "mid" }),
+            Spec::RrX { blocks, lost, fraction, fill } => format!("rrx:b={blocks},lost={},fr={},f={fill}", lost_bucket(*lost), match fraction { 0 => "0", 255 => "255", _ => "mid" }),
+            Spec::SdesX { chunks, items } => format!(
+                "sdesx:c={chunks},items=[{}]",
+                items.iter().map(|(ty, t)| format!("{}/{}{}", match ty { 0 => "0", 1..=8 => "1..8", _ => "9..255" }, len_bucket(t.len), ["", "u2", "u3"][t.kind as usize % 3])).collect::<Vec<_>>().join(",")
+            ),
+            Spec::FirX { entries, seq, fill } => format!("firx:n={entries},seq={},f={fill}", match seq { 0 => "0", 255 => "255", _ => "mid" }),
+            Spec::TwccX { base, count, ref_time, fb, plen } => format!(
+                "twccx:base={},count={},rt={},fb={},pl%4={},pl={}",
+                match base { 0 => "0", 65535 => "max", _ => "mid" },
+                match count { 0 => "0", 65535 => "max", _ => "mid" },
+                match ref_time { 0 => "0", 0x7F_FFFF => "0x7fffff", 0x80_0000 => "0x800000", 0xFF_FFFF => "max", _ => "mid" },
+                match fb { 0 => "0", 255 => "255", _ => "mid" },
+                plen % 4,
+                match plen { 0 => "0", 1..=255 => "1..255", _ => ">255" }
+            ),
         }
+    }
+
+    fn block_x(i: usize, lost: i32, fraction: u8, fill: u8) -> ReportBlock {
+        let mut b = Self::block(i, lost, fill);
+        b.fraction_lost = fraction.wrapping_add(i as u8);
+        b
     }
 
     fn block(i: usize, lost: i32, fill: u8) -> ReportBlock {
@@ -173,6 +269,37 @@ impl Spec {
                 bitrate_bps: *bitrate,
                 ssrcs: (0..*ssrcs).map(|i| v32(*fill, 10 + i as u32)).collect(),
             }),
+            Spec::SrX { blocks, lost, fraction, fill } => RtcpPacket::SenderReport(SenderReport {
+                sender_ssrc: v32(*fill, 1),
+                ntp_most: v32(*fill, 2),
+                ntp_least: v32(*fill, 3),
+                rtp_timestamp: v32(*fill, 4),
+                packet_count: v32(*fill, 5),
+                octet_count: v32(*fill, 6),
+                report_blocks: (0..*blocks).map(|i| Self::block_x(i, *lost, *fraction, *fill)).collect(),
+            }),
+            Spec::RrX { blocks, lost, fraction, fill } => RtcpPacket::ReceiverReport(ReceiverReport {
+                sender_ssrc: v32(*fill, 1),
+                report_blocks: (0..*blocks).map(|i| Self::block_x(i, *lost, *fraction, *fill)).collect(),
+            }),
+            Spec::SdesX { chunks, items } => RtcpPacket::SourceDescription(SourceDescription {
+                chunks: (0..*chunks)
+                    .map(|c| SdesChunk { ssrc: v32(2, c as u32), items: items.iter().map(|(ty, t)| SdesItem { ty: *ty, text: t.build() }).collect() })
+                    .collect(),
+            }),
+            Spec::FirX { entries, seq, fill } => RtcpPacket::FullIntraRequest(FullIntraRequest {
+                sender_ssrc: v32(*fill, 1),
+                requests: (0..*entries).map(|i| FirRequest { ssrc: v32(*fill, 10 + i as u32), sequence_number: seq.wrapping_add(i as u8) }).collect(),
+            }),
+            Spec::TwccX { base, count, ref_time, fb, plen } => RtcpPacket::TransportWideCc(TransportWideCc {
+                sender_ssrc: v32(2, 1),
+                media_ssrc: v32(2, 2),
+                base_sequence: *base,
+                packet_status_count: *count,
+                reference_time_64ms: *ref_time & 0x00FF_FFFF,
+                feedback_packet_count: *fb,
+                payload: (0..*plen).map(|i| 0xD1u8.wrapping_add(i as u8)).collect(),
+            }),
             Spec::Twcc { kind, fill } => {
                 let (count, payload) = twcc_payload(*kind);
                 RtcpPacket::TransportWideCc(TransportWideCc {
@@ -228,7 +355,11 @@ impl Spec {
                 ..Default::default()
             }),
             RtcpPacket::ReceiverReport(r) => Box::new(rtcp::receiver_report::ReceiverReport { ssrc: r.sender_ssrc, reports: r.report_blocks.iter().map(rb).collect(), ..Default::default() }),
-            RtcpPacket::SourceDescription(s) => Box::new(rtcp::source_description::SourceDescription {
+            RtcpPacket::SourceDescription(s) => {
+                if s.chunks.iter().any(|c| c.items.iter().any(|i| !(1..=8).contains(&i.ty))) {
+                    return None;
+                }
+                Box::new(rtcp::source_description::SourceDescription {
                 chunks: s
                     .chunks
                     .iter()
@@ -241,7 +372,8 @@ impl Spec {
                             .collect(),
                     })
                     .collect(),
-            }),
+            })
+            }
             RtcpPacket::Goodbye(g) => Box::new(rtcp::goodbye::Goodbye { sources: g.sources.clone(), reason: Bytes::from(g.reason.clone().unwrap_or_default().into_bytes()) }),
             RtcpPacket::PictureLossIndication(p) => Box::new(rtcp::payload_feedbacks::picture_loss_indication::PictureLossIndication { sender_ssrc: p.sender_ssrc, media_ssrc: p.media_ssrc }),
             RtcpPacket::FullIntraRequest(f) => Box::new(rtcp::payload_feedbacks::full_intra_request::FullIntraRequest {
@@ -272,7 +404,11 @@ impl Spec {
             }
             RtcpPacket::TransportWideCc(t) => {
                 use rtcp::transport_feedbacks::transport_layer_cc::*;
-                let Spec::Twcc { kind, .. } = self else { unreachable!() };
+                let kind = match self {
+                    Spec::Twcc { kind, .. } => kind,
+                    Spec::TwccX { count: 0, plen: 0, .. } => &0u8,
+                    _ => return None,
+                };
                 let rl = |sym, n| PacketStatusChunk::RunLengthChunk(RunLengthChunk { type_tcc: StatusChunkTypeTcc::RunLengthChunk, packet_status_symbol: sym, run_length: n });
                 let (chunks, deltas) = match kind {
                     0 => (vec![], vec![]),
@@ -654,5 +790,121 @@ pub fn check_lost_wire(v24: u32) -> Out {
     }
     let region = if v24 == 0 { "zero" } else if v24 == 0x7FFFFF { "max" } else if v24 == 0x800000 { "min" } else if v24 == 0xFFFFFF { "-1" } else if v24 & 0x800000 != 0 { "neg" } else { "pos" };
     o.class = format!("lostwire:{region}:{}", if o.fails.is_empty() { "ok" } else { "violation" });
+    o
+}
+
+// ---------------------------------------------------------------------------------------------
+// deep block: structural mutations of canonical images (declared length / count vs actual)
+
+fn mut_kind(m: &Mutn) -> String {
+    match m {
+        Mutn::Len(d) => format!("len{d:+}"),
+        Mutn::Cut(n) => format!("cut{n}"),
+        Mutn::Add(n, v) => format!("add{n}x{v:02x}"),
+        Mutn::Count(d) => format!("count{d:+}"),
+        Mutn::PadBit => "padbit".into(),
+        Mutn::Ver(v) => format!("ver{v}"),
+        Mutn::Pt(p) => format!("pt{p}"),
+    }
+}
+
+fn ref_comparable_parsed(p: &RtcpPacket) -> bool {
+    match p {
+        // the payload of a mutated TWCC is not a chunk/delta structure
+        RtcpPacket::TransportWideCc(_) => false,
+        RtcpPacket::SourceDescription(s) => s.chunks.iter().all(|c| c.items.iter().all(|i| (1..=8).contains(&i.ty))),
+        _ => true,
+    }
+}
+
+/// The canonical image of `specs` (rustrtc's own serialisation) with one mutation applied to
+/// packet `which`. The property speaks about canonical encodings only, so nothing is demanded
+/// about *whether* rustrtc accepts the mutated image. What it does promise for every logical
+/// packet the stack serialises still applies to whatever the parser returned: if the marshaller
+/// accepts the parsed packets, parsing that serialisation gives the same logical packets and the
+/// reference reads the same fields. A panic is a failure (nothing was returned).
+pub fn check_wire_mut(specs: &[Spec], which: usize, m: &Mutn) -> Out {
+    let mut o = Out::default();
+    let xs: Vec<RtcpPacket> = specs.iter().map(|s| s.build()).collect();
+    let kinds = specs.iter().map(|s| s.kind()).collect::<Vec<_>>().join("+");
+    let tag = format!("wiremut:{kinds}#{which}:{}", mut_kind(m));
+    let Ok(mut b) = marshal_rtcp_packets(&xs) else {
+        o.class = format!("{tag}:base-rejected");
+        return o;
+    };
+    // locate packet `which`
+    let mut off = 0usize;
+    for _ in 0..which {
+        if off + 4 > b.len() {
+            break;
+        }
+        off += (u16::from_be_bytes([b[off + 2], b[off + 3]]) as usize + 1) * 4;
+    }
+    if off + 4 > b.len() {
+        o.class = format!("{tag}:no-such-packet");
+        return o;
+    }
+    match m {
+        Mutn::Len(d) => {
+            let l = u16::from_be_bytes([b[off + 2], b[off + 3]]).wrapping_add(*d as i16 as u16);
+            b[off + 2..off + 4].copy_from_slice(&l.to_be_bytes());
+        }
+        Mutn::Cut(n) => {
+            let k = b.len().saturating_sub(*n as usize);
+            b.truncate(k);
+        }
+        Mutn::Add(n, v) => b.extend(std::iter::repeat_n(*v, *n as usize)),
+        Mutn::Count(d) => {
+            let c = (b[off] & 0x1F).wrapping_add(*d as u8) & 0x1F;
+            b[off] = (b[off] & 0xE0) | c;
+        }
+        Mutn::PadBit => b[off] ^= 0x20,
+        Mutn::Ver(v) => b[off] = (b[off] & 0x3F) | (v << 6),
+        Mutn::Pt(p) => b[off + 1] = *p,
+    }
+    let sig = |k: &str| format!("rtcp.wire-mutation;{};{k}", mut_kind(m).trim_matches(|c: char| c == '+' || c == '-' || c.is_ascii_digit()));
+    let p = match parse_rtcp_packets(&b, None) {
+        Err(_) => {
+            o.class = format!("{tag}:rejected");
+            return o;
+        }
+        Ok(p) => p,
+    };
+    o.accepted = true;
+    let b2 = match marshal_rtcp_packets(&p) {
+        Err(_) => {
+            // e.g. a NACK without FCI entries: parsed, but not a packet the marshaller will emit
+            o.class = format!("{tag}:parsed-not-serialisable");
+            return o;
+        }
+        Ok(b2) => b2,
+    };
+    match parse_rtcp_packets(&b2, None) {
+        Ok(p2) if p2.len() == p.len() && p2.iter().zip(&p).all(|(a, b)| logical_eq(a, b)) => {}
+        other => o.fail(
+            sig("reserialise-unstable"),
+            format!("parse(marshal(P)) != P for P = parse(mutated image): image {} ; P = {} ; second parse = {}", vcore::truncate(&vcore::hex(&b), 200), vcore::truncate(&format!("{p:?}"), 300), vcore::truncate(&format!("{other:?}"), 300)),
+        ),
+    }
+    if !p.is_empty() && p.iter().all(ref_comparable_parsed) {
+        match ref_unmarshal(&b2) {
+            Ok(rs) => {
+                o.ref_checks += 1;
+                if rs.len() != p.len() {
+                    o.fail(sig("ref"), format!("reference sees {} packets in marshal(P), rustrtc parsed {}; image {}", rs.len(), p.len(), vcore::truncate(&vcore::hex(&b), 200)));
+                } else {
+                    for (i, (x, r)) in p.iter().zip(&rs).enumerate() {
+                        if let Err(e) = agree(x, r.as_ref()) {
+                            o.fail(sig("ref"), format!("reference reads marshal(P) differently, packet {i}: {e}; mutated image {}", vcore::truncate(&vcore::hex(&b), 200)));
+                            break;
+                        }
+                    }
+                }
+            }
+            Err(e) => o.fail(sig("ref"), format!("{e} (marshal of what rustrtc parsed from the mutated image {})", vcore::truncate(&vcore::hex(&b), 200))),
+        }
+    }
+    let same = p.len() == xs.len() && p.iter().zip(&specs.iter().map(|s| s.expected()).collect::<Vec<_>>()).all(|(a, b)| logical_eq(a, b));
+    o.class = format!("{tag}:{}:{}", if same { "parsed-as-original" } else { "parsed-differently" }, if o.fails.is_empty() { "ok" } else { "violation" });
     o
 }
